@@ -56,18 +56,21 @@ def geom_twin(ctx, R="R-C14-geom-twin"):
         n_cfg += 1
         guard, rows, cols, node = g["empty"]
         T = sc.lt_threshold(guard)
-        if T is None:
-            raise AnalysisError("%s: empty-return guard not of the form N < T: %s" % (R, S.show(guard)))
-        sc.same(ctx, R, f, node, "[%s] emptiness threshold" % name, T, spec.GEOM["empty_below"])
-        # columns of the empty result
-        want_cols = S.add(S.call("len", S.sym("filters")), S.call("int", S.sym("include_energy")))
-        res = S.compare(cols, want_cols, domain={})
-        if res["verdict"] == "equal":
-            ctx.ok(RC, f.loc(node), "[%s] empty result has len(filters) + int(include_energy) columns" % name)
+        if T is not None:
+            sc.same(ctx, R, f, node, "[%s] emptiness threshold" % name, T, spec.GEOM["empty_below"])
         else:
-            ctx.bad(RC, f, node, "the empty result has %s columns; STFTFrameComputer.compute_full returns "
-                    "num_filts + int(include_energy) columns for a too-short signal" % S.show(cols),
-                    "empty result has the same number of columns as compute_full")
+            sc.same(ctx, R, f, node, "[%s] the result is empty exactly when N < L//2 + 1 (indicator over all empty returns)" % name,
+                    S.cond(guard, S.ONE, S.ZERO), S.cond(S.cmp("<", sc.N, spec.GEOM["empty_below"]), S.ONE, S.ZERO))
+        # columns of every empty result
+        want_cols = S.add(S.call("len", S.sym("filters")), S.call("int", S.sym("include_energy")))
+        for eg, erows, ecols, enode in g["empties"]:
+            res = S.compare(ecols, want_cols, domain={})
+            if res["verdict"] == "equal":
+                ctx.ok(RC, f.loc(enode), "[%s] empty result has len(filters) + int(include_energy) columns" % name)
+            else:
+                ctx.bad(RC, f, enode, "the empty result returned here has %s columns; STFTFrameComputer.compute_full returns "
+                        "num_filts + int(include_energy) columns for a too-short signal" % S.show(ecols),
+                        "empty result has the same number of columns as compute_full")
         pl_want = spec.geom_pad_left(style, kaldi)
         nf_want = spec.GEOM["num_frames"]
         sc.same(ctx, R, f, g["full"][2], "[%s] number of frames" % name, g["rows"], nf_want)
